@@ -41,8 +41,8 @@ const (
 	margin  = 1500 * time.Millisecond // reuse is demanded only with at least this much life left
 	slack   = 125 * time.Millisecond  // half a grid step: absorbs the frozen clock's jitter
 	maxReal = 100 * time.Millisecond  // a call that really took longer may have blurred the virtual clock
-	hostR1  = "r1.example"
-	hostR2  = "r2.example"
+	hostR1  = "reg.example:5000"      // same host name, different ports: still two hosts
+	hostR2  = "reg.example:5001"
 	realmT1 = "t1.example"
 	realmT2 = "t2.example"
 )
